@@ -191,6 +191,9 @@ def check_end(env, spec, model, d, res):
         refused = dp in model['pre'] and '-f' not in spec['flags'] and not spec.get('stdout')
         if spec['op'] == 'c': ok_lib = True
         else: ok_lib = model['expect'].get(sname) is not None
+        # documented pass-through: 'zstd -d -f -c' copies bytes of an unrecognised format to stdout as they are, so a valid frame
+        # followed by trailing garbage is accepted (frame decoded, garbage copied) although the library rejects the file as a whole
+        if spec['op'] == 'd' and '-f' in spec['flags'] and spec.get('stdout') and fs.get('variant') == 'garbage': ok_lib = True
         accept = ok_lib and not refused
         accept_all &= accept
         if spec['op'] == 't' or dp is None: continue
